@@ -13,6 +13,12 @@
 (* Read phase: one reader (ReadMsg called repeatedly until it fails)       *)
 (* consumes the stream through short reads of any size; one action per     *)
 (* step of readToLen / of ReadMsg's decisions.                             *)
+(*                                                                         *)
+(* This model decides what ONE pass over a byte stream returns.  The       *)
+(* reader as a long-lived STREAM object (a connection carrying a sequence  *)
+(* of frames, writes and reads interleaved, the consumer keeping the       *)
+(* messages it was given: ReturnedMessagesImmutable, StreamFidelity) is    *)
+(* FrameStream.tla.                                                        *)
 (***************************************************************************)
 EXTENDS Integers, Sequences, FiniteSets, TLC, Util
 
